@@ -5,6 +5,7 @@ import (
 	"errors"
 	"fmt"
 	"net"
+	"sort"
 	"strings"
 	"time"
 
@@ -496,8 +497,20 @@ func (w *loopWorld) check(failErr error, ctxErrClosed bool) {
 		r.Fail("finish-count", "%d connections were accepted but newService was called %d times", w.accepted, len(w.svcs))
 		return
 	}
-	nerr := 0
-	for _, s := range w.svcs {
+	nerr, nclosedStatus := 0, 0
+	// in the order of their Finish calls
+	svcs := append([]*loopSvc(nil), w.svcs...)
+	sort.SliceStable(svcs, func(i, j int) bool {
+		fi, fj := 1<<30, 1<<30
+		if len(svcs[i].Finishes) > 0 {
+			fi = svcs[i].Finishes[0].Seq
+		}
+		if len(svcs[j].Finishes) > 0 {
+			fj = svcs[j].Finishes[0].Seq
+		}
+		return fi < fj
+	})
+	for _, s := range svcs {
 		if s.NAssigner != 1 {
 			r.Fail("finish-count", "service %d: Assigner called %d times", s.Idx, s.NAssigner)
 			return
@@ -545,6 +558,25 @@ func (w *loopWorld) check(failErr error, ctxErrClosed bool) {
 			}
 			if c := s.conn; c != nil && !connFailed(c) {
 				r.Fail("finish-wrong-args", "service %d: Finish received an error status but its connection did not fail", s.Idx)
+				return
+			}
+		}
+		// rules that need no knowledge of which connection the service served
+		// (a connection that never carried a call cannot be told apart)
+		if st.Stopped && !(w.cancelSeq >= 0 && w.cancelSeq < f.Seq) {
+			r.Fail("finish-wrong-args", "service %d: status Stopped, but the context had not ended before Finish (#%d)", s.Idx, f.Seq)
+			return
+		}
+		if st.Closed {
+			nclosedStatus++
+			n := 0
+			for _, c := range w.conns {
+				if c.Accepted && c.ClientClosed >= 0 && c.ClientClosed < f.Seq {
+					n++
+				}
+			}
+			if nclosedStatus > n {
+				r.Fail("finish-wrong-args", "service %d: %d services were finished with status Closed by #%d, but only %d clients had closed their connection by then", s.Idx, nclosedStatus, f.Seq, n)
 				return
 			}
 		}
